@@ -4,7 +4,8 @@
    symmetry ...) are computed by the kernel inside the proofs, so a changed table either still satisfies
    them or breaks the corresponding theorem. *)
 From Coq Require Import Sorting.Permutation.
-From TV Require Import Model.Unicode Model.Lang Spec.Unicode Proofs.Unicode Proofs.Decomp Proofs.Lang.
+From TV Require Import Lib.Bytes Model.Unicode Model.Lang Spec.Unicode Proofs.Unicode Proofs.Decomp Proofs.Lang.
+From TV Require Import Model.UnicodeShape Spec.UnicodeShape Proofs.UnicodeShape Proofs.UnicodeShape2 Proofs.HangulCode Proofs.DecompOrder.
 
 (* language.LookupScript (bisection, no fuel exhaustion) returns what a linear scan of ScriptRanges returns *)
 Theorem lookup_script_eq_linear_scan : forall r : Z, lookup_script r = Ok (script_scan ScriptRanges r).
@@ -98,6 +99,177 @@ Theorem direction_setters_independent : forall d, 0 <= d < 256 -> direction_ok d
 Proof. exact direction_ok_all. Qed.
 Print Assumptions direction_setters_independent.
 
+(* ---------------------------------------------------------------------------------------------- *)
+(* second part: script tags, vertical orientation, the shaper's lookups *)
+
+(* language.ParseScript / Script.String.  Every uint32 in the capitalisation the code enforces (bit 0x20 clear in
+   the first byte, set in the other three: every tag "Xxxx" of letters) round-trips, so does every Script constant
+   of scripts_table.go; ParseScript is total on every byte string (error exactly below four bytes) and its result
+   is a fixed point of String-then-ParseScript (the normalisation is idempotent). *)
+Theorem script_tag_roundtrip :
+  (forall s, is_u32 s -> script_normal s = true -> parse_script (script_string s) = Ok s)
+  /\ (forall s, is_script_const s = true -> parse_script (script_string s) = Ok s)
+  /\ (forall str, (zlen str < 4 -> parse_script str = Err 1) /\ (4 <= zlen str -> exists v, parse_script str = Ok v))
+  /\ (forall str v, Forall (fun b => 0 <= b) str -> parse_script str = Ok v ->
+        is_u32 v /\ script_normal v = true /\ parse_script (script_string v) = Ok v).
+Proof.
+  split; [exact script_roundtrip_lemma|]. split; [exact script_const_roundtrip|].
+  split; [exact parse_script_total_lemma|exact parse_script_canonical].
+Qed.
+Print Assumptions script_tag_roundtrip.
+
+(* LookupScript returns, for every integer, a Script constant of scripts_table.go (Unknown included), which
+   round-trips through its tag *)
+Theorem lookup_script_in_table : forall r : Z,
+  exists s, lookup_script r = Ok s /\ is_script_const s = true /\ parse_script (script_string s) = Ok s.
+Proof. exact lookup_script_is_const. Qed.
+Print Assumptions lookup_script_in_table.
+
+(* LookupVerticalOrientation / Orientation: a script has at most one entry, so the scan order is irrelevant; an
+   unlisted script is sideways everywhere; Orientation is the main orientation flipped exactly on the members of
+   the exception table (linear membership); and the exceptions of a script are code points of that script *)
+Theorem vertical_orientation_lookup :
+  (forall s, (exists e, In e vo_table /\ vo_script e = s /\ lookup_vo s = e)
+             \/ ((forall e, In e vo_table -> vo_script e <> s) /\ lookup_vo s = (s, true, None)))
+  /\ (forall t' s, Permutation vo_table t' -> lookup_vo_in t' s = lookup_vo s)
+  /\ (forall s r, is_rune r -> vo_orientation (lookup_vo s) r = Ok (vo_sideways_spec s r))
+  /\ (forall e r, In e vo_table -> mem_opt (vo_exc e) r = true -> script_scan ScriptRanges r = vo_script e).
+Proof.
+  split; [exact vo_lookup_cases|]. split; [exact vo_lookup_order_independent|].
+  split; [exact vo_orientation_spec|exact vo_exception_script].
+Qed.
+Print Assumptions vertical_orientation_lookup.
+
+(* harfbuzz's uni.generalCategory over the tables of unicodedata/general_category.go *)
+Theorem classes_partition_shaper_general_category :
+  (forall r, is_rune r -> hb_general_category r = Ok (hb_gc_scan r))
+  /\ partition_statement hb_generalCategories_order.
+Proof. split; [exact hb_general_category_scan|exact (partition_of_family _ hb_gc_family_ok)]. Qed.
+Print Assumptions classes_partition_shaper_general_category.
+
+(* the script table and the general category tables describe the same set of assigned code points (UAX #24:
+   script Unknown = unassigned, private use or surrogate), for every integer *)
+Theorem script_general_category_coherent : forall r : Z,
+  script_scan ScriptRanges r <> script_Unknown <-> gc_is_unassigned_like (hb_gc_scan r) = false.
+Proof. exact script_gc_coherent_lemma. Qed.
+Print Assumptions script_general_category_coherent.
+
+(* the other range tables consulted through unicode.Is (Extended_Pictographic, LargeEastAsian, Word, STerm,
+   IndicVirama, IndicVowel_Dependent): lookup = linear membership *)
+Theorem auxiliary_tables_membership :
+  (forall t r, In t aux_tables -> is_rune r -> unicode_is t r = Ok (mem t r))
+  /\ (forall r, is_rune r -> hb_is_extended_pictographic r = Ok (mem ut_Extended_Pictographic r)).
+Proof. split; [exact aux_table_is_mem|exact hb_is_extended_pictographic_mem]. Qed.
+Print Assumptions auxiliary_tables_membership.
+
+(* getJoiningType: the table value found by a linear scan, mapped by the switch, else the general category
+   fallback (T for Mn/Me/Cf, else U) for every uint8 category; a code point has at most one entry and the scan
+   order is irrelevant; the result is a column of the state table or joiningTypeT *)
+Theorem arabic_joining_eq_linear_scan :
+  (forall u gc, 0 <= gc < 256 -> get_joining_type u gc = joining_spec arabic_joinings u gc)
+  /\ (forall u, is_rune u -> arabic_joining_type u = Ok (joining_spec arabic_joinings u (hb_gc_scan u)))
+  /\ (forall tab' u gc, Permutation arabic_joinings tab' -> get_joining_type_in tab' u gc = get_joining_type u gc)
+  /\ (forall u, (length (joining_entries arabic_joinings u) <= 1)%nat)
+  /\ (forall u gc, joining_value_ok (get_joining_type u gc) = true).
+Proof.
+  split; [exact get_joining_type_spec|]. split; [exact arabic_joining_type_spec|].
+  split; [exact joining_order_independent|]. split; [exact joining_entries_le1|exact get_joining_type_value_ok].
+Qed.
+Print Assumptions arabic_joining_eq_linear_scan.
+
+(* indicGetCategories: for every integer the page dispatch `switch u >> 12` returns what one linear scan over the
+   clauses of all pages returns, without index panic; two clauses covering a code point are the same clause
+   (exactly one value), so the scan order is irrelevant *)
+Theorem indic_categories_eq_linear_scan :
+  (forall u : Z, indic_get_categories u = Ok (indic_scan u))
+  /\ (forall c1 c2 u, In c1 (all_clauses indic_pages) -> In c2 (all_clauses indic_pages) ->
+        clause_covers c1 u = true -> clause_covers c2 u = true -> c1 = c2)
+  /\ (forall cls' u, Permutation (all_clauses indic_pages) cls' ->
+        flat_lookup indic_table cls' indic_default u = indic_scan u).
+Proof.
+  split; [exact (paged_lookup_flat _ _ _ indic_default indic_paged_ok)|].
+  split; [exact (clause_unique _ _ _ indic_paged_ok)|exact (flat_lookup_order_independent _ _ _ indic_default indic_paged_ok)].
+Qed.
+Print Assumptions indic_categories_eq_linear_scan.
+
+(* getUSECategory: the same statement *)
+Theorem use_category_eq_linear_scan :
+  (forall u : Z, get_use_category u = Ok (use_scan u))
+  /\ (forall c1 c2 u, In c1 (all_clauses use_pages) -> In c2 (all_clauses use_pages) ->
+        clause_covers c1 u = true -> clause_covers c2 u = true -> c1 = c2)
+  /\ (forall cls' u, Permutation (all_clauses use_pages) cls' ->
+        flat_lookup use_table cls' use_default u = use_scan u).
+Proof.
+  split; [exact (paged_lookup_flat _ _ _ use_default use_paged_ok)|].
+  split; [exact (clause_unique _ _ _ use_paged_ok)|exact (flat_lookup_order_independent _ _ _ use_default use_paged_ok)].
+Qed.
+Print Assumptions use_category_eq_linear_scan.
+
+(* the range clauses of the two dispatch functions tile their tables: every entry of indicTable / useTable is read
+   for some code point, and for one only (no dead or doubly used table entry, offsets and bounds agree) *)
+Theorem indic_use_tables_tiled :
+  (forall i, 0 <= i < zlen indic_table ->
+     exists c u, In c (all_clauses indic_pages) /\ is_range c = true /\ c_lo c <= u <= c_hi c /\ u - c_sub c + c_off c = i)
+  /\ (forall c1 c2 u1 u2, In c1 (all_clauses indic_pages) -> In c2 (all_clauses indic_pages) ->
+        is_range c1 = true -> is_range c2 = true -> c_lo c1 <= u1 <= c_hi c1 -> c_lo c2 <= u2 <= c_hi c2 ->
+        u1 - c_sub c1 + c_off c1 = u2 - c_sub c2 + c_off c2 -> c1 = c2 /\ u1 = u2)
+  /\ (forall i, 0 <= i < zlen use_table ->
+     exists c u, In c (all_clauses use_pages) /\ is_range c = true /\ c_lo c <= u <= c_hi c /\ u - c_sub c + c_off c = i)
+  /\ (forall c1 c2 u1 u2, In c1 (all_clauses use_pages) -> In c2 (all_clauses use_pages) ->
+        is_range c1 = true -> is_range c2 = true -> c_lo c1 <= u1 <= c_hi c1 -> c_lo c2 <= u2 <= c_hi c2 ->
+        u1 - c_sub c1 + c_off c1 = u2 - c_sub c2 + c_off c2 -> c1 = c2 /\ u1 = u2).
+Proof.
+  split; [exact (table_index_surjective _ _ indic_tiled_ok)|]. split; [exact (table_index_injective _ _ indic_tiled_ok)|].
+  split; [exact (table_index_surjective _ _ use_tiled_ok)|exact (table_index_injective _ _ use_tiled_ok)].
+Qed.
+Print Assumptions indic_use_tables_tiled.
+
+(* uni.modifiedCombiningClass keeps starters starters and non-starters non-starters, and stays a uint8 *)
+Theorem modified_combining_class_keeps_starters : forall r, is_rune r ->
+  exists c m, lookup_combining_class r = Ok c /\ modified_combining_class r = Ok m
+              /\ 0 <= c < 256 /\ 0 <= m < 256 /\ (m = 0 <-> c = 0).
+Proof. exact modified_ccc_lemma. Qed.
+Print Assumptions modified_combining_class_keeps_starters.
+
+(* decomposeHangul / composeHangul as translated from unicodedata/unicode.go on this run (Gen/HangulCode.v, int32
+   wrap-around on every operation) are the hand-written models on every rune, so hangul_roundtrip and
+   compose_decompose_inverse are statements about the bounds the code has; restated on the translated functions:
+   whatever composes decomposes back to the same pair, for ALL pairs of runes, and conversely outside the exclusions *)
+Theorem hangul_model_follows_code :
+  (forall ab, is_rune ab -> decompose_hangul_src ab = decompose_hangul ab)
+  /\ (forall a b, is_rune a -> is_rune b -> compose_hangul_src a b = compose_hangul a b)
+  /\ (forall a b c, is_rune a -> is_rune b -> is_rune c ->
+        compose_hangul_src a b = (c, true) -> decompose_hangul_src c = (a, b, true))
+  /\ (forall c a b, is_rune c -> is_rune a -> is_rune b ->
+        decompose_hangul_src c = (a, b, true) -> compose_hangul_src a b = (c, true))
+  /\ (forall a b c, is_rune a -> is_rune b -> is_rune c -> compose_code a b = (c, true) -> decompose_code c = (a, b, true))
+  /\ (forall c a b, is_rune c -> is_rune a -> is_rune b ->
+        decompose_code c = (a, b, true) -> excluded c = false -> compose_code a b = (c, true)).
+Proof.
+  split; [exact decompose_hangul_src_eq|]. split; [exact compose_hangul_src_eq|].
+  split; [exact hangul_src_compose_decompose|]. split; [exact hangul_src_decompose_compose|].
+  split; [exact compose_code_then_decompose_code|exact decompose_code_then_compose_code].
+Qed.
+Print Assumptions hangul_model_follows_code.
+
+(* a sideways Direction is vertical, for every value (IsSideways = "vertical with a sideways orientation") *)
+Theorem direction_sideways_is_vertical : forall d : Z, dobs_coherent (observe d) = true.
+Proof.
+  intro d. unfold dobs_coherent, observe, dir_is_sideways. cbn [o_sideways o_vertical].
+  destruct (dir_is_vertical d); [apply Bool.implb_true_r|reflexivity].
+Qed.
+Print Assumptions direction_sideways_is_vertical.
+
+(* canonical decompositions are in canonical order: for every rune that decomposes into two parts, the parts are
+   never an out-of-order pair of combining marks (ccc(a) > ccc(b) > 0), and the first part of a code point that
+   recomposes (not a composition exclusion) is a starter; Hangul parts are starters (no combining class table
+   meets the jamo and syllable blocks) *)
+Theorem decomposition_canonical_order : forall c a b, is_rune c -> decompose c = (a, b, true) -> b <> 0 ->
+  exists ca cb, lookup_combining_class a = Ok ca /\ lookup_combining_class b = Ok cb
+                /\ ~ (cb < ca /\ 0 < cb) /\ (excluded c = false -> ca = 0).
+Proof. exact decomposition_order_lemma. Qed.
+Print Assumptions decomposition_canonical_order.
+
 (* ---- non-vacuity ---- *)
 Example script_example : lookup_script 65 = Ok 1281455214 /\ lookup_script 1114112 = Ok script_Unknown.
 Proof. split; vm_compute; reflexivity. Qed.
@@ -126,3 +298,47 @@ Proof. repeat split; try (vm_compute; reflexivity); vm_compute; congruence. Qed.
 Example direction_example :
   dir_set_sideways 1 true = 15 /\ dir_is_sideways 15 = true /\ dir_progression 15 = true /\ dir_set_progression 15 false = 14.
 Proof. repeat split. Qed.
+Example script_tag_example :
+  parse_script [108; 97; 116; 110] = Ok 1281455214 /\ script_string 1281455214 = [76; 97; 116; 110]
+  /\ is_script_const 1281455214 = true /\ script_normal 1281455214 = true /\ is_u32 1281455214
+  /\ parse_script [76; 97; 116] = Err 1 /\ parse_script [255; 0; 1; 127; 9] = Ok 3743424895.
+Proof. unfold is_u32. repeat split; try lia; vm_compute; reflexivity. Qed.
+Example vertical_orientation_example :
+  lookup_vo 1281455214 = (1281455214, true, Some [(8544, 8584, 1); (65313, 65338, 1); (65345, 65370, 1)])
+  /\ vo_orientation (lookup_vo 1281455214) 65 = Ok true /\ vo_orientation (lookup_vo 1281455214) 8544 = Ok false
+  /\ lookup_vo 1198679403 = (1198679403, true, None) /\ mem_opt (vo_exc (lookup_vo 1281455214)) 8544 = true.
+Proof. repeat split; vm_compute; reflexivity. Qed.
+Example shaper_gc_example :
+  hb_general_category 65 = Ok 9 /\ hb_general_category 19969 = Ok 7 /\ hb_general_category 57345 = Ok 3
+  /\ hb_general_category 888 = Ok hb_gc_unassigned /\ script_scan ScriptRanges 19969 = 1214344809
+  /\ gc_is_unassigned_like (hb_gc_scan 19969) = false /\ gc_is_unassigned_like (hb_gc_scan 888) = true.
+Proof. repeat split; vm_compute; reflexivity. Qed.
+Example aux_tables_example : In ut_Extended_Pictographic aux_tables /\ hb_is_extended_pictographic 128512 = Ok true.
+Proof. split; [left; reflexivity|vm_compute; reflexivity]. Qed.
+Example arabic_joining_example :
+  arabic_joining_type 1576 = Ok hb_joiningTypeD /\ arabic_joining_type 1611 = Ok hb_joiningTypeT
+  /\ arabic_joining_type 65 = Ok hb_joiningTypeU /\ get_joining_type 1600 0 = hb_joiningTypeC
+  /\ joining_entries arabic_joinings 1576 = [68].
+Proof. repeat split; vm_compute; reflexivity. Qed.
+Example indic_use_example :
+  indic_get_categories 2325 = Ok 1025 /\ indic_get_categories 160 = Ok 1034 /\ indic_get_categories 65 = Ok indic_default
+  /\ get_use_category 2325 = Ok 1 /\ get_use_category 69807 = Ok (znth 0 use_table (69807 - 69424 + 4472))
+  /\ get_use_category (-1) = Ok use_default.
+Proof. repeat split; vm_compute; reflexivity. Qed.
+Example modified_ccc_example :
+  modified_combining_class 1617 = Ok 27 /\ lookup_combining_class 1617 = Ok 33 /\ modified_combining_class 65 = Ok 0
+  /\ modified_combining_class 6752 = Ok 254.
+Proof. repeat split; vm_compute; reflexivity. Qed.
+Example tiled_example : zlen indic_table = 1728 /\ zlen use_table = 13480 /\ is_range (1, 2304, 3455, 2304, 64) = true.
+Proof. repeat split. Qed.
+Example hangul_code_example :
+  compose_hangul_src 4352 4449 = (44032, true) /\ compose_hangul_src 4352 4470 = (0, false)
+  /\ decompose_hangul_src 44033 = (44032, 4520, true) /\ compose_code 65 768 = (192, true) /\ decompose_code 192 = (65, 768, true)
+  /\ is_rune 4352 /\ is_rune 4449 /\ is_rune 44032.
+Proof. unfold is_rune. repeat split; try lia; vm_compute; reflexivity. Qed.
+Example direction_coherent_example : dir_is_sideways 10 = true /\ dir_is_sideways 8 = false /\ dir_is_vertical 8 = false.
+Proof. repeat split. Qed.
+Example decomposition_order_example :
+  decompose 3955 = (3953, 3954, true) /\ lookup_combining_class 3953 = Ok 129 /\ lookup_combining_class 3954 = Ok 130
+  /\ excluded 3955 = true /\ decompose 192 = (65, 768, true) /\ lookup_combining_class 65 = Ok 0 /\ lookup_combining_class 768 = Ok 230.
+Proof. repeat split; vm_compute; reflexivity. Qed.
